@@ -30,6 +30,7 @@ func exprHelperRound(pkgs []*packages.Package, overlay map[string][]byte, testId
 		expr ast.Expr
 	}
 	helpers := map[types.Object]*helper{}
+	moved := movedAnchorNames(pkgs)
 	for _, pkg := range pkgs {
 		if !isServitorPath(pkg.PkgPath) || len(pkg.Errors) > 0 {
 			continue
@@ -50,7 +51,7 @@ func exprHelperRound(pkgs []*packages.Package, overlay map[string][]byte, testId
 				if fd.Type.Results == nil || len(fd.Type.Results.List) != 1 || len(fd.Type.Results.List[0].Names) > 1 {
 					continue
 				}
-				if anchorFuncs[funcKey(pkg.PkgPath, fd)] || testIdents[pkg.PkgPath+"\x00"+fd.Name.Name] {
+				if anchorFuncs[funcKey(pkg.PkgPath, fd)] || testIdents[pkg.PkgPath+"\x00"+fd.Name.Name] || (moved[strings.ToLower(fd.Name.Name)] != "" && moved[strings.ToLower(fd.Name.Name)] != pkg.PkgPath) {
 					continue
 				}
 				if fd.Recv != nil && interfaceMethodName(pkgs, fd.Name.Name) {
@@ -67,7 +68,7 @@ func exprHelperRound(pkgs []*packages.Package, overlay map[string][]byte, testId
 					case *ast.FuncLit:
 						okBody = false
 					case *ast.Ident:
-						if pkg.TypesInfo.Uses[x] == obj {
+						if originOf(pkg.TypesInfo.Uses[x]) == obj {
 							okBody = false
 						}
 					}
@@ -102,7 +103,7 @@ func exprHelperRound(pkgs []*packages.Package, overlay map[string][]byte, testId
 		for _, f := range pkg.Syntax {
 			ast.Inspect(f, func(n ast.Node) bool {
 				if id, ok := n.(*ast.Ident); ok {
-					if h := helpers[pkg.TypesInfo.Uses[id]]; h != nil {
+					if h := helpers[originOf(pkg.TypesInfo.Uses[id])]; h != nil {
 						refCount[h.obj]++
 					}
 				}
@@ -148,13 +149,22 @@ func exprHelperRound(pkgs []*packages.Package, overlay map[string][]byte, testId
 				if id == nil {
 					return true
 				}
-				h := helpers[pkg.TypesInfo.Uses[id]]
+				h := helpers[originOf(pkg.TypesInfo.Uses[id])]
 				if h == nil {
 					return true
 				}
+				// a qualified call from another package: only of a function, and only if
+				// everything the expression names can be named from there (below)
+				qual := ""
 				if h.pkg != pkg {
-					blocked[h.obj] = true
-					return true
+					q := identOf(recvExpr)
+					pn, isPkg := pkg.TypesInfo.Uses[q].(*types.PkgName)
+					if h.fd.Recv != nil || q == nil || !isPkg || pn.Imported() != h.pkg.Types {
+						blocked[h.obj] = true
+						return true
+					}
+					qual = q.Name
+					recvExpr = nil
 				}
 				// receiver
 				subst := map[types.Object]string{}
@@ -234,6 +244,17 @@ func exprHelperRound(pkgs []*packages.Package, overlay map[string][]byte, testId
 					if se, ok := m.(*ast.SelectorExpr); ok {
 						if _, isPkg := h.pkg.TypesInfo.Uses[identOf(se.X)].(*types.PkgName); !isPkg {
 							selNames[se.Sel] = true
+							if qual != "" && !se.Sel.IsExported() {
+								okNames = false
+							}
+						} else {
+							// pkg.Name: resolved through the package name, which is checked below
+							selNames[se.Sel] = true
+						}
+					}
+					if kv, ok := m.(*ast.KeyValueExpr); ok && qual != "" {
+						if k := identOf(kv.Key); k != nil && !k.IsExported() {
+							okNames = false
 						}
 					}
 					return true
@@ -275,6 +296,15 @@ func exprHelperRound(pkgs []*packages.Package, overlay map[string][]byte, testId
 						return true
 					}
 					if o.Parent() == types.Universe {
+						return true
+					}
+					if qual != "" {
+						// a package-level name of the helper's package: exported, and qualified here
+						if o.Parent() == h.pkg.Types.Scope() && eid.IsExported() {
+							pieces = append(pieces, piece{hoff(eid.Pos()), hoff(eid.End()), qual + "." + eid.Name})
+						} else {
+							okNames = false
+						}
 						return true
 					}
 					if sc := pkg.Types.Scope().Innermost(call.Pos()); sc != nil {
@@ -373,4 +403,17 @@ func exprHelperRound(pkgs []*packages.Package, overlay map[string][]byte, testId
 func identOf(e ast.Expr) *ast.Ident {
 	id, _ := e.(*ast.Ident)
 	return id
+}
+
+// originOf: the declared object behind a method or field of an instantiated
+// generic type (inside `func (h *History[T]) …` the methods and fields of h are
+// those of an instantiation).
+func originOf(o types.Object) types.Object {
+	switch x := o.(type) {
+	case *types.Func:
+		return x.Origin()
+	case *types.Var:
+		return x.Origin()
+	}
+	return o
 }
